@@ -650,11 +650,17 @@ func c09G1(c *rt.Ctx) {
 		vc := isVerified(v)
 		if phi, isPhi := an.Unwrap(v).(*ssa.Phi); vc == nil && isPhi {
 			// a merge of separately verified values is a shape the checker does not decide
-			any := false
+			any, all := false, true
 			for _, e := range phi.Edges {
 				if isVerified(e) != nil {
 					any = true
+				} else if _, nested := an.Unwrap(e).(*ssa.Phi); !nested && !an.IsNilConst(e) {
+					all = false
 				}
+			}
+			if any && !all {
+				c.Bad(construct, posOf(r.Ret), "the returned value merges a verified aggregate with a definition that never went through a.verifyFunc (e.g. the signature re-injected into another object after verification): the published object is not the verified one")
+				continue
 			}
 			if any {
 				c.Unsure(construct, posOf(r.Ret), "returned value merges several definitions, some of them verified")
